@@ -46,6 +46,9 @@ structure Obs where
   curMakespan : Int := 0
   /-- recorder log -/
   log : List Notif := []
+  /-- an attribute that `create_or_get_observer` conditions can test (the harness' recorder has a `tag`;
+  feature observers use their feature types the same way) -/
+  tag : Nat := 0
 deriving Repr, DecidableEq, Inhabited
 
 /-- `_is_singleton` of each class (the harness' recorder sets it to `False`) -/
@@ -63,6 +66,9 @@ structure World where
   /-- global order of recorder calls `(observer id, call)`: lets theorems speak about notification order
   across observers (the harness' recorders share one Python list) -/
   trace : List (Nat × Notif) := []
+  /-- ghost: the accepted dispatches since the last reset, in order (no Python counterpart; it lets
+  theorems say "the dispatch sequence" without mentioning any observer) -/
+  accepted : List SOp := []
 deriving Repr, Inhabited
 
 def World.init (c : Cfg) : World := { cfg := c, s := JS.init c.I }
@@ -81,6 +87,13 @@ def popJob (deques : List (List OpRef)) (j : Nat) : List (List OpRef) :=
 def fullDeques (I : Instance) : List (List OpRef) :=
   (List.range I.length).map fun j => (List.range (I.getD j []).length).map fun p => (j, p)
 
+/-- `IdleTimeReward.update`: gap between the new operation and the one before it on the machine
+(`machine_schedule = schedule[machine_id][:-1]`), or its start time when it is the first -/
+def idleGap (before : List SOp) (x : SOp) : Int :=
+  match before.getLast? with
+  | some l => x.start - l.end_
+  | none => x.start
+
 /-- `observer.update(scheduled_operation)`; may query the dispatcher (and so fill its memo) -/
 def Obs.update (c : Cfg) (s : State) (id : Nat) (x : SOp) (o : Obs) : Obs × State × List (Nat × Notif) :=
   match o.kind with
@@ -91,11 +104,7 @@ def Obs.update (c : Cfg) (s : State) (id : Nat) (x : SOp) (o : Obs) : Obs × Sta
     ({ o with curMakespan := cur, rewards := o.rewards ++ [o.curMakespan - cur] }, s, [])
   | .idleReward =>
     -- `self.dispatcher.schedule.schedule[machine_id][:-1]`
-    let before := (s.sched.getD x.machine []).dropLast
-    let idle := match before.getLast? with
-      | some l => x.start - l.end_
-      | none => x.start
-    ({ o with rewards := o.rewards ++ [-idle] }, s, [])
+    ({ o with rewards := o.rewards ++ [-(idleGap (s.sched.getD x.machine []).dropLast x)] }, s, [])
   | .recorder =>
     let r := takeSnapshot c s
     ({ o with log := o.log ++ [.update x r.1] }, r.2, [(id, .update x r.1)])
@@ -132,32 +141,32 @@ def World.dispatch (w : World) (j p : Nat) (m : Option Int) : World × Outcome :
     | none => ({ w with s := s' }, .ok)   -- unreachable: the new entry is in the schedule
     | some x =>
       let r := notifyAll (fun s id o => Obs.update w.cfg s id x o) w.subs s' w.heap w.trace
-      ({ w with s := r.1, heap := r.2.1, trace := r.2.2 }, .ok)
+      ({ w with s := r.1, heap := r.2.1, trace := r.2.2, accepted := w.accepted ++ [x] }, .ok)
 
 /-- `Dispatcher.reset` -/
 def World.reset (w : World) : World :=
   let s0 := JS.reset w.cfg.I w.s
   let r := notifyAll (fun s id o => Obs.reset w.cfg s id o) w.subs s0 w.heap w.trace
-  { w with s := r.1, heap := r.2.1, trace := r.2.2 }
+  { w with s := r.1, heap := r.2.1, trace := r.2.2, accepted := [] }
 
 /-- class-specific part of the constructors, run after `subscribe` -/
-def Obs.construct (c : Cfg) (s : State) (kind : ObsKind) : Obs :=
+def Obs.construct (c : Cfg) (s : State) (kind : ObsKind) (tag : Nat := 0) : Obs :=
   match kind with
-  | .history => { kind := kind }
+  | .history => { kind := kind, tag := tag }
   | .unscheduled =>
     -- reset(), then `update` for every operation already in the schedule
-    { kind := kind, deques := s.sched.flatten.foldl (fun d x => popJob d x.job) (fullDeques c.I) }
-  | .makespanReward => { kind := kind, curMakespan := makespan s }
-  | .idleReward => { kind := kind }
-  | .recorder => { kind := kind }
+    { kind := kind, tag := tag, deques := s.sched.flatten.foldl (fun d x => popJob d x.job) (fullDeques c.I) }
+  | .makespanReward => { kind := kind, tag := tag, curMakespan := makespan s }
+  | .idleReward => { kind := kind, tag := tag }
+  | .recorder => { kind := kind, tag := tag }
 
 /-- `Kind(dispatcher, subscribe=True)`: singleton guard, subscribe, class-specific initialisation.
 Returns the new observer's id, or `none` when the guard raises (nothing changes then). -/
-def World.construct (w : World) (kind : ObsKind) : World × Option Nat :=
+def World.construct (w : World) (kind : ObsKind) (tag : Nat := 0) : World × Option Nat :=
   if kind.singleton && w.subs.any (fun id => (w.heap[id]?.map (·.kind)) == some kind) then (w, none)
   else
     let id := w.heap.length
-    ({ w with subs := w.subs ++ [id], heap := w.heap ++ [Obs.construct w.cfg w.s kind] }, some id)
+    ({ w with subs := w.subs ++ [id], heap := w.heap ++ [Obs.construct w.cfg w.s kind tag] }, some id)
 
 /-- `dispatcher.unsubscribe(observer)`: `list.remove` (raises `ValueError` when absent) -/
 def World.unsubscribe (w : World) (id : Nat) : World × Bool :=
@@ -173,6 +182,13 @@ def World.createOrGet (w : World) (kind : ObsKind) : World × Option Nat :=
   | some id => (w, some id)
   | none => w.construct kind
 
+/-- `dispatcher.create_or_get_observer(Kind, condition=lambda o: o.tag == tag, tag=tag)`: the first
+subscribed observer of the class *that satisfies the condition*, else construct one -/
+def World.createOrGetCond (w : World) (kind : ObsKind) (tag : Nat) : World × Option Nat :=
+  match w.subs.find? (fun id => (w.heap[id]?.map fun o => (o.kind, o.tag)) == some (kind, tag)) with
+  | some id => (w, some id)
+  | none => w.construct kind tag
+
 /-- a query on the dispatcher of the world -/
 def World.ask (w : World) (q : Query) : World × Answer :=
   let r := JS.ask w.cfg w.s q
@@ -183,7 +199,9 @@ inductive WEv
   | reset
   | query (q : Query)
   | construct (k : ObsKind)
+  | constructTagged (k : ObsKind) (tag : Nat)
   | createOrGet (k : ObsKind)
+  | createOrGetCond (k : ObsKind) (tag : Nat)
   | unsub (id : Nat)
   | resub (id : Nat)
 deriving Repr, DecidableEq, Inhabited
@@ -193,7 +211,9 @@ def World.step (w : World) : WEv → World
   | .reset => w.reset
   | .query q => (w.ask q).1
   | .construct k => (w.construct k).1
+  | .constructTagged k t => (w.construct k t).1
   | .createOrGet k => (w.createOrGet k).1
+  | .createOrGetCond k t => (w.createOrGetCond k t).1
   | .unsub id => (w.unsubscribe id).1
   | .resub id => (w.resubscribe id).1
 
